@@ -15,7 +15,9 @@ from . import common as C
 
 TRUSTED = CC.TRUSTED_COMMON + [
     "C06: 'the cache at call time' is what names() + entries_with_name() show from inside the callback (plus async_get_unique after the op)",
-    "C06: the listeners are the harness's recording listeners; their scripted reactions only add/remove listeners (never touch the cache)",
+    "C06: the listeners are the harness's recording listeners; their scripted reactions add/remove listeners, without a question (never touches "
+    "the cache) or with one (async_add_listener purges the expired records at its own clock reading, runs the purge's two listener rounds nested "
+    "inside the callback, and replays the cache to the new listener); reactions are scripted per nesting depth",
 ]
 ASSUMPTIONS = [
     "datagrams reach RecordManager.async_updates_from_response directly (the listener's duplicate-packet guard is C16's subject)",
@@ -23,18 +25,81 @@ ASSUMPTIONS = [
     "reactions may hit one target twice and may remove listeners that are not registered",
     "a zero-TTL copy of a record that was not cached before the datagram produces no pair (the statement's 'previous is the cached copy iff one existed' "
     "is read over the records the datagram changes or refreshes)",
+    "a callback that registers a listener WITH a question purges the records whose TTL has fully elapsed at its clock reading (D23): the cache a later "
+    "callback of the same datagram sees, and the post-state, are the statement's minus exactly those records; 'exactly once' is read over the two rounds "
+    "of the datagram itself (the purge's own rounds and the replay are nested calls, checked separately)",
 ]
 
 
-def _apply_exec(ids, executed, phase):
-    s = set(ids)
-    for ph, lid, kind, tg in executed:
-        if ph == phase:
-            if kind:
-                s.add(tg)
+def _listener_sets(l1, events):
+    """(listener set when the datagram's complete round starts, listener set after the datagram), from the reactions executed, in the
+    order in which they take effect.  `add with a question` registers its target after the purge's own rounds and before the replay:
+    reactions executed inside those rounds take effect before it, reactions executed inside the replay's callbacks after it."""
+    s = set(l1)
+    l2 = None
+    pending = []                      # (depth of the acting callback, target) of `add with a question` acts whose add is still to come
+    for e in events:
+        kind, depth = e[0], e[5]
+        # the span of a pending act ends with the next callback / act at its own depth or above; its replay starts with the update call,
+        # one level down, of its target with (record, None) pairs
+        while pending:
+            d, t = pending[-1]
+            ended = depth <= d
+            replay = kind == "u" and depth == d + 1 and e[1] == t and e[3] and all(o is None for _, o in e[3])
+            if ended or replay:
+                s.add(t)
+                pending.pop()
+                if replay:
+                    break
             else:
-                s.discard(tg)
-    return s
+                break
+        if kind == "c" and depth == 0 and l2 is None:
+            l2 = set(s)
+        if kind == "a":
+            act = e[3]
+            if act[2] == 2:
+                pending.append((depth, act[3]))
+            elif act[2]:
+                s.add(act[3])
+            else:
+                s.discard(act[3])
+    while pending:
+        s.add(pending.pop()[1])
+    return (set(s) if l2 is None else l2), s
+
+
+def _expired_at(d, t):
+    return [i for i, e in d.items() if e[0] + 1000 * e[1] <= t]
+
+
+def _reentrant(ref, info, o, now):
+    """what the purges of `add a listener with a question` reactions must do, computed from the reference alone.
+    Returns (seen, nested, purged1): `seen[k]` = identities purged before the k-th event of o["events"]; `nested` = per executed reaction
+    of kind 2 the identities its purge must remove; purged1 = identities purged while round 1 was running.  Removes the purged identities from ref.d."""
+    cur = {i: list(e) for i, e in info["phase1"].items()}     # the cache during round 1: pre-state + refreshes + flush marks
+    purged = set()
+    purged1 = set()
+    seen = []
+    nested = []
+    in_round2 = False
+    for k, ev in enumerate(o["events"]):
+        seen.append(set(purged))
+        if ev[0] == "c" and ev[5] == 0 and not in_round2:
+            in_round2 = True
+            cur = {i: list(e) for i, e in ref.d.items() if i not in purged}    # the post-state, minus what round 1 purged
+        if ev[0] == "a" and ev[3][2] == 2:
+            t = ev[2]
+            ex = _expired_at(cur, t)
+            nested.append((k, ex, {i: CC.spec_line(cur[i][2], cur[i][0], cur[i][1]) for i in ex}))
+            for i in ex:
+                del cur[i]
+                purged.add(i)
+                if not in_round2:
+                    purged1.add(i)
+    for i in purged:
+        ref.d.pop(i, None)
+        ref.guard.pop(i, None)
+    return seen, nested, purged1
 
 
 def oracle(probes, ops, obs, res):
@@ -49,14 +114,27 @@ def oracle(probes, ops, obs, res):
                 # (only on a tree without the D18 repair) removing a listener that is not registered, outside any datagram: the call
                 # raises, nothing else happens.  The property speaks about datagrams; not reported (notes/agents/C06.md)
                 break
-            if k == "D" and o["err"] == "KeyError" and o.get("failed"):
-                ph, lid, _, tg = o["failed"][0]
-                lost = "before the cache was updated: no record of the datagram was added or removed, " if ph == 1 else ""
+            if k == "D" and o["err"] == "KeyError" and o.get("failed") and o["failed"][0][2] == 0:
+                ph, lid, _, tg = o["failed"][0][:4]
+                lost = "before the cache was updated: no record of the datagram was added or removed, " if o["failed"][0][4] == 1 else ""
                 found.append((idx, "C06:remove-absent-listener-aborts-ingestion",
                               "listener %d's %s callback removed listener %d, which was not registered (any more); async_remove_listener let the "
                               "KeyError of set.remove escape and async_updates_from_response raised %s%d update and %d complete calls were made "
-                              "for %d registered listeners" % (lid, "update" if ph == 1 else "complete", tg, lost, len(o["c1"]), len(o["c2"]), len(prev_ids))))
+                              "for %d registered listeners" % (lid, "update" if ph % 10 == 1 else "complete", tg, lost, len(o["c1"]), len(o["c2"]), len(prev_ids))))
                 break
+            if k == "D" and o["err"] == "KeyError" and not o.get("failed"):
+                # D24: a first-round callback registered a listener with a question; its purge removed an expired record the datagram withdraws
+                info = ref.datagram(op[1], op[2])
+                _, nested, purged1 = _reentrant(ref, info, o, op[1])
+                hit = [i for i in info["removed"] if i in purged1]
+                if hit:
+                    ev = o["events"][[n[0] for n in nested if hit[0] in n[1]][0]]
+                    found.append((idx, "C06:reentrant-add-listener-purge-aborts-ingestion",
+                                  "listener %d's update callback called async_add_listener(listener %d, question) at clock %d; its purge of expired records "
+                                  "removed %s, which the datagram at %d withdraws (zero-TTL copy); async_remove_records(removes) then raised %s out of "
+                                  "async_updates_from_response: the datagram's new records were added, %d of %d registered listeners got the complete call"
+                                  % (ev[1], ev[3][3], ev[2], CC.ident_str(hit[0]), op[1], o.get("errmsg"), len(o["c2"]), len(prev_ids))))
+                    break
             found.append((idx, "C06:exception:%s" % o["err"], "op %r raised %s" % (op[:2], o.get("errmsg"))))
             break
         if k == "X":
@@ -67,11 +145,14 @@ def oracle(probes, ops, obs, res):
             now, recs = op[1], op[2]
             pre_lines = ref.lines()
             info = ref.datagram(now, recs)
-            post = ref.lines()
+            post0 = ref.lines()                       # the statement's post-state ...
+            seen, nested, _ = _reentrant(ref, info, o, now)
+            post = ref.lines()                        # ... minus what re-entrant purges removed (expired at their clock readings)
             if res is not None:
                 _stats(res, op, info, prev_t, prev_ids, o)
             _check_post_state(found, idx, now, o, info, pre_lines, post, probes)
-            _check_calls(found, idx, now, o, info, post, prev_ids)
+            _check_calls(found, idx, now, o, info, post0, prev_ids, seen)
+            _check_nested(found, idx, o, nested, prev_ids)
         prev_ids = o["ids"]
         t = CC.op_time(op)
         if t is not None:
@@ -140,9 +221,13 @@ def _snap_diff(snap, want):
     return None
 
 
-def _check_calls(found, idx, now, o, info, post, l1):
+def _minus(lines, gone):
+    return {i: x for i, x in lines.items() if i not in gone} if gone else lines
+
+
+def _check_calls(found, idx, now, o, info, post, l1, seen):
     pairs = info["pairs"]
-    calls = o["calls"]
+    calls = o["calls"]                      # the datagram's own two rounds (depth 0)
     ucalls = {}
     ccalls = {}
     for c in calls:
@@ -161,8 +246,7 @@ def _check_calls(found, idx, now, o, info, post, l1):
     if "c" in kinds and "u" in kinds[kinds.index("c"):]:
         found.append((idx, "C06:call-order", "an update call after a complete call: %r" % (o["order"],)))
     phase1 = {i: CC.spec_line(e[2], e[0], e[1]) for i, e in info["phase1"].items()}
-    l2 = _apply_exec(l1, o["executed"], 1)
-    l3 = _apply_exec(l2, o["executed"], 2)
+    l2, l3 = _listener_sets(l1, o["events"])
     if sorted(l3) != o["ids"]:
         found.append((idx, "C06:listener-set", "listener set after the datagram is %r, expected %r" % (o["ids"], sorted(l3))))
     touched = {x[3] for x in o["executed"]} | {x[1] for x in o["executed"]}
@@ -177,57 +261,90 @@ def _check_calls(found, idx, now, o, info, post, l1):
             found.append((idx, "C06:complete-call-count", "listener %d was registered after the update phase and got %d complete calls" % (lid, nc)))
         if lid not in l1 and lid not in l2 and lid not in touched and (nu or nc):
             found.append((idx, "C06:unregistered-listener-called", "listener %d is not registered but was called" % lid))
-    # what they were told
-    told = [(None, o["u"], o["s1"], o["unow"])] + [(c[1], c[2], c[3], c[4]) for c in calls if c[0] == "u"]
-    for lid, got_pairs, snap, tnow in told:
-        who = "listener %s" % ("(registered throughout)" if lid is None else lid)
-        if got_pairs is None:
+    # what they were told: every depth-0 call, with the identities that re-entrant purges had removed before it
+    for k, ev in enumerate(o["events"]):
+        if ev[5] != 0 or ev[0] not in "uc":
             continue
-        if tnow != now:
-            found.append((idx, "C06:update-now", "%s was called with now=%r for the datagram at %d" % (who, tnow, now)))
-        gp = [tuple(p) for p in got_pairs]
-        if gp != pairs:
-            if sorted(p[0] for p in gp) == sorted(p[0] for p in pairs) and [p[0] for p in gp] != [p[0] for p in pairs]:
-                sig = "C06:update-pairs:order"
-            elif [p[0] for p in gp] != [p[0] for p in pairs]:
-                sig = "C06:update-pairs:records"
-            elif [p[1] is None for p in gp] != [p[1] is None for p in pairs]:
-                sig = "C06:update-pairs:previous-presence"
-            else:
-                sig = "C06:update-pairs:previous-not-live"
-            found.append((idx, sig, "%s was given %r, expected %r" % (who, gp, pairs)))
-        d = _snap_diff(snap, phase1)
-        if d is not None:
-            what, line = d
-            li = None
-            try:
-                li = CC.parse_line(line.split(" instead of ")[0])[0]
-            except Exception:  # noqa: BLE001
-                pass
-            if what == "has" and li in info["added"]:
-                sig = "C06:update-snapshot:sees-new-record"
-            elif what == "lacks" and li in info["removed"]:
-                sig = "C06:update-snapshot:misses-withdrawn"
-            elif what == "differs":
-                sig = "C06:update-snapshot:lifetime"
-            else:
-                sig = "C06:update-snapshot:%s" % what
-            found.append((idx, sig, "inside async_update_records %s sees a cache that %s %s" % (who, what, line)))
-    done = [(None, o["s2"])] + [(c[1], c[3]) for c in calls if c[0] == "c"]
-    for lid, snap in done:
-        if snap is None:
-            continue
+        lid, gone = ev[1], seen[k]
         who = "listener %s" % ("(registered throughout)" if lid is None else lid)
-        d = _snap_diff(snap, post)
-        if d is not None:
-            found.append((idx, "C06:complete-snapshot", "inside async_update_records_complete %s sees a cache that %s %s" % (who, d[0], d[1])))
+        if ev[0] == "u":
+            got_pairs, snap, tnow = ev[3], ev[4], ev[2]
+            if tnow != now:
+                found.append((idx, "C06:update-now", "%s was called with now=%r for the datagram at %d" % (who, tnow, now)))
+            gp = [tuple(p) for p in got_pairs]
+            if gp != pairs:
+                if sorted(p[0] for p in gp) == sorted(p[0] for p in pairs) and [p[0] for p in gp] != [p[0] for p in pairs]:
+                    sig = "C06:update-pairs:order"
+                elif [p[0] for p in gp] != [p[0] for p in pairs]:
+                    sig = "C06:update-pairs:records"
+                elif [p[1] is None for p in gp] != [p[1] is None for p in pairs]:
+                    sig = "C06:update-pairs:previous-presence"
+                else:
+                    sig = "C06:update-pairs:previous-not-live"
+                found.append((idx, sig, "%s was given %r, expected %r" % (who, gp, pairs)))
+            d = _snap_diff(snap, _minus(phase1, gone))
+            if d is not None:
+                what, line = d
+                li = None
+                try:
+                    li = CC.parse_line(line.split(" instead of ")[0])[0]
+                except Exception:  # noqa: BLE001
+                    pass
+                if what == "has" and li in info["added"]:
+                    sig = "C06:update-snapshot:sees-new-record"
+                elif what == "lacks" and li in info["removed"]:
+                    sig = "C06:update-snapshot:misses-withdrawn"
+                elif what == "differs":
+                    sig = "C06:update-snapshot:lifetime"
+                else:
+                    sig = "C06:update-snapshot:%s" % what
+                found.append((idx, sig, "inside async_update_records %s sees a cache that %s %s" % (who, what, line)))
+        else:
+            d = _snap_diff(ev[4], _minus(post, gone))
+            if d is not None:
+                found.append((idx, "C06:complete-snapshot", "inside async_update_records_complete %s sees a cache that %s %s" % (who, d[0], d[1])))
+
+
+def _check_nested(found, idx, o, nested, l1):
+    """the purge of every `add a listener with a question` reaction: it removes exactly the records whose TTL has fully elapsed at the
+    reaction's clock reading, and reports them -- once, as (record, record) -- to the listener registered throughout"""
+    evs = o["events"]
+    for k, ex, lines in nested:
+        ev = evs[k]
+        depth = ev[5] + 1
+        # the nested update calls of the listener registered throughout that belong to this reaction: up to the next act at the same depth
+        told = []
+        for e in evs[k + 1:]:
+            if e[0] == "a" and e[5] <= ev[5]:
+                break
+            if e[5] < depth and e[0] in "uc":
+                break
+            if e[0] == "u" and e[1] is None and e[5] == depth:
+                told.append(e)
+        want = sorted(lines.values())
+        got = sorted(n for e in told for n, _ in e[3])
+        if got != want:
+            found.append((idx, "C06:reentrant-purge:records", "async_add_listener(listener %d, question) at clock %d from listener %d's callback reported %r as "
+                          "purged, the records whose TTL has fully elapsed are %r" % (ev[3][3], ev[2], ev[1], got, want)))
+        elif len(told) > 1:
+            found.append((idx, "C06:reentrant-purge:round", "one purge was reported in %d update calls to the same listener" % len(told)))
+        elif told and any(n != o_ for n, o_ in told[0][3]):
+            found.append((idx, "C06:reentrant-purge:pairs", "a purged record was not reported as (record, record): %r" % (told[0][3],)))
 
 
 def _stats(res, op, info, prev_t, l1, o):
     C05._stats_d(res, op, info, prev_t)
     res.count("listeners-at-arrival:%d" % len(l1))
     res.count("reactions-executed", len(o["executed"]))
-    ex = sorted("%d%s" % (x[0], "+" if x[2] else "-") + ("s" if x[1] == x[3] else "") for x in o["executed"])
+    ex = sorted("%d%s" % (x[0], {0: "-", 1: "+", 2: "?"}[x[2]]) + ("s" if x[1] == x[3] else "") for x in o["executed"])
+    for x in o["executed"]:
+        if x[2] == 2:
+            res.count("reaction:add-with-question:depth%d:round%d" % (x[0] // 10, x[4]))
+    for e in o["events"]:
+        if e[0] == "u" and e[1] is None and e[5] >= 1:
+            res.count("reentrant-purge-nonempty")
+            if any(CC.parse_line(n)[0] in info["removed"] for n, _ in e[3]):
+                res.count("reentrant-purge-hits-withdrawn-record")
     if ex or l1:
         res.nontriv("L/%d/%s/%s" % (len(l1), ",".join(ex), "upd" if info["pairs"] else "none"))
     res.count("datagram-without-updates" if not info["pairs"] else "datagram-with-updates")
@@ -243,6 +360,11 @@ REACT_SCRIPTS = [
     [[2, 2, 0, 2]],                    # 2 removes itself during the complete phase
     [[1, 1, 0, 1], [2, 2, 1, 3]],      # 1 removes itself in phase 1 (no complete call), 2 adds 3 in phase 2 (3 gets nothing)
     [[1, 2, 1, 3], [2, 3, 0, 1]],      # 2 adds 3 in phase 1; 3, called in phase 2, removes 1
+    # a listener registered WITH a question from inside a callback: async_add_listener purges the expired records first (D23) --
+    # in phase 1 that is between the computation of the datagram's work lists and their application (D24)
+    [[1, 1, 2, 3, 0, "a._x._tcp.local.", 255, 1]],                      # 1 adds 3 with a question in phase 1 (3: replay + complete call)
+    [[2, 2, 2, 3, 1, "a._x._tcp.local.", 255, 1]],                      # 2 adds 3 with a question in phase 2, the clock 1 ms later
+    [[1, 2, 2, 3, 0, "absent.local.", 12, 1], [11, 1, 0, 2]],           # 2 adds 3 in phase 1; inside the purge's nested round 1 removes 2
 ]
 
 
@@ -304,6 +426,29 @@ def flush_window_histories():
                     yield ops
 
 
+def reentrant_histories():
+    """systematic: a short-lived record is cached, runs out (or not: 999 / 1000 / 1001 ms for TTL 1) without being purged, and a datagram that
+    withdraws / refreshes / ignores it arrives while listener 2 of {1, 2, 3} registers listener 4 WITH a question from inside its callback --
+    in the update round or the complete round, the clock inside the call reading the arrival time or 1001 ms later, the question matching
+    a cached type or nothing"""
+    V = CC.VOCAB
+    other = CC.inst(V[13], 120, 0)                                     # an unrelated AAAA record
+    for tpl in (V[0], V[4], V[10], V[8]):                              # PTR, SRV, A, TXT
+        for gap in (999, 1000, 1001, 3000):
+            for variant in ("goodbye", "goodbye+new", "refresh", "unrelated", "goodbye+live", "goodbye-twice"):
+                for ph in (1, 2):
+                    for dt in (0, 1001):
+                        for q in ((CC.TX, 12, 1), ("absent.local.", 12, 1)):
+                            t = CC.T0
+                            ops = [["LA", 1], ["LA", 2], ["LA", 3], ["D", t, [CC.inst(tpl, 1, 0), CC.inst(V[3], 4500, 0)], []]]
+                            bye, live = CC.inst(tpl, 0, 0), CC.inst(tpl, 120, 0)
+                            recs = {"goodbye": [bye], "goodbye+new": [bye, other], "refresh": [live], "unrelated": [other],
+                                    "goodbye+live": [bye, live], "goodbye-twice": [bye, other, bye]}[variant]
+                            ops.append(["D", t + gap, recs, [[ph, 2, 2, 4, dt, q[0], q[1], q[2]]]])
+                            ops.append(["D", t + gap + 5000, [other], []])
+                            yield ops
+
+
 def run(ctx):
     res = C.Result("C06")
     t0 = time.time()
@@ -322,6 +467,11 @@ def run(ctx):
     for ops in flush_window_histories():
         run_.add("flush-window", probes_r, ops)
         n_sys += 1
+
+    n_re = 0
+    for ops in reentrant_histories():
+        run_.add("reentrant", probes_r, ops)
+        n_re += 1
 
     probes_e = CC.vocab_probes(C05.EXH_VOCAB)
     plans = [("react", C05.EXH_SMALL, [0, 1001], 2), ("plain", C05.EXH_SMALL, C05.EXH_SMALL_GAPS, 3)]
@@ -348,6 +498,7 @@ def run(ctx):
     for h in range(n_random):
         depth = rng.choice([6, 12, 25, 40, 60])
         opts = {"listeners": [1, 2, 3, 4], "initial_listeners": rng.choice([0, 1, 2, 3]), "p_listener": rng.choice([0.05, 0.15]), "reacts": True, "p_remove_absent": rng.choice([0.0, 0.04, 0.1]),
+                "p_question": rng.choice([0.0, 0.2, 0.5]),
                 "p_repeat": rng.choice([0.0, 0.3, 0.5]), "p_purge": rng.choice([0.05, 0.15]), "p_flush": rng.choice([0.3, 0.6])}
         ops = CC.gen_history(rng, depth, opts)
         run_.add("random", probes_r, ops)
@@ -359,10 +510,12 @@ def run(ctx):
     res.rule = ("one evaluation = one op of a history; for every datagram: post-state per identity and flush marks vs the flat reference, and for every "
                 "recording listener (registered before, between, or from inside callbacks) the number of update/complete calls, the pairs in datagram "
                 "order with `old` rendered live, and the cache snapshots taken inside both callbacks; all of it also diffed against the Lean model. "
-                "Streams: corpus; %d systematic flush-window scenarios (sibling pairs x gap 999/1000/1001 x refresh x 6 variants); every history of the "
+                "Streams: corpus; %d systematic flush-window scenarios (sibling pairs x gap 999/1000/1001 x refresh x 6 variants); %d systematic "
+                "re-entrancy scenarios (a record runs out unpurged x goodbye/refresh/unrelated datagram x a listener registered WITH a question from "
+                "inside the update or the complete callback x clock reading x question); every history of the "
                 "bounded plans %s (%d histories, %s); %d seeded random histories of depth 6-60 with 4 listeners and scripted reactions. "
                 "non-trivial = distinct datagram signatures (as C05) plus distinct (listeners at arrival, reactions executed, updates?)"
-                % (n_sys, [(p[0], len(p[1]), len(p[2]), p[3]) for p in plans], n_exh, "complete" if complete else "cut short", done))
+                % (n_sys, n_re, [(p[0], len(p[1]), len(p[2]), p[3]) for p in plans], n_exh, "complete" if complete else "cut short", done))
     res.sample({"reaction_scripts": REACT_SCRIPTS})
     res.count("wall_s", int(time.time() - t0))
     return res
